@@ -90,7 +90,7 @@ impl AggregateState {
         (0..count).map(|_| Self::new()).collect()
     }
 
-    pub(crate) fn update(&mut self, func: &AggregateFunction, row: &ExecutorRow) {
+    pub(crate) fn update(&mut self, func: &AggregateFunction, row: &ExecutorRow) -> eyre::Result<()> {
         match func {
             AggregateFunction::Count { distinct: _, column } => match column {
                 None => self.count += 1,
@@ -104,7 +104,10 @@ impl AggregateState {
                 if let Some(val) = row.get(*column) {
                     match val {
                         Value::Int(i) => {
-                            self.sum += i;
+                            self.sum = self
+                                .sum
+                                .checked_add(*i)
+                                .ok_or_else(|| eyre::eyre!("integer overflow in SUM"))?;
                             self.sum_seen = true;
                         }
                         Value::Float(f) => {
@@ -119,7 +122,10 @@ impl AggregateState {
                 if let Some(val) = row.get(*column) {
                     match val {
                         Value::Int(i) => {
-                            self.sum += i;
+                            self.sum = self
+                                .sum
+                                .checked_add(*i)
+                                .ok_or_else(|| eyre::eyre!("integer overflow in AVG"))?;
                             self.count += 1;
                         }
                         Value::Float(f) => {
@@ -157,6 +163,7 @@ impl AggregateState {
                 }
             }
         }
+        Ok(())
     }
 
     pub(crate) fn finalize(&self, func: &AggregateFunction) -> Value<'static> {
